@@ -38,6 +38,12 @@ func propsOfCase(c string) []string {
 	if strings.HasPrefix(c, "read ") || strings.HasPrefix(c, "readseq ") {
 		return p18
 	}
+	if strings.HasPrefix(c, "scandir ") || strings.HasPrefix(c, "scanfiles ") {
+		return p1819
+	}
+	if strings.HasPrefix(c, "unquote ") {
+		return p18
+	}
 	return p19
 }
 
@@ -1902,6 +1908,10 @@ func replayOne(res *corr.Result, model, c string) {
 		historyOracle(res, seq, lanes, false)
 		return
 	}
+	if strings.HasPrefix(c, "scandir ") || strings.HasPrefix(c, "scanfiles ") || strings.HasPrefix(c, "unquote ") {
+		replayScan(res, model, c) // scan.go lane (corrscan.go)
+		return
+	}
 	f := strings.Split(c, " ")
 	out, err := mdl.Run(model, nil, []string{c}, 1)
 	if err != nil || len(f) != 3 {
@@ -1945,13 +1955,17 @@ func runImports(tier string, seed int64, model string, replay string) *corr.Resu
 	syslistDrift(res)
 	n19 := runC19(res, r, tier, model)
 	n18 := runC18(res, r, tier, model)
-	res.DistinctNontrivial = n19 + n18
+	nScan := runScan(res, r, tier, model) // scan.go lane, after the older lanes so that their random streams are unchanged
+	res.DistinctNontrivial = n19 + n18 + nScan
 	res.Extra["nontrivial_C19"] = n19
 	res.Extra["nontrivial_C18"] = n18
+	res.Extra["nontrivial_scan"] = nScan
 	res.Rule = "C19: (name, tag set) pairs whose name has a suffix that makes MatchFile false for at least one tag set, and (content, tag set) pairs whose leading block holds at least one +build line; " +
 		"C18: distinct inputs that are generated valid headers / fully valid Go files (go/parser consulted) or raise a syntax error (whole-input clause exercised). " +
 		"Every case is run on implementation and Lean model and compared (MatchFile/ShouldBuild verdicts; ReadImports imports, returned bytes, error kind, for both reportSyntaxError values). " +
 		"History oracle (counted in evaluations, not in distinct_nontrivial): sequences of 2-5 ReadImports/ReadComments calls on inputs of this run are executed with every returned slice and import list kept uncopied next to a private copy; " +
-		"after the later calls of the sequence, and again while 2-4 goroutines run the same calls concurrently, the kept results must equal their copies (class result-aliased) and the concurrent results the sequential ones (class concurrent-result-differs); results of every 8th comparison call are kept to the end of the run as well"
+		"after the later calls of the sequence, and again while 2-4 goroutines run the same calls concurrently, the kept results must equal their copies (class result-aliased) and the concurrent results the sequential ones (class concurrent-result-differs); results of every 8th comparison call are kept to the end of the run as well. " +
+		"scan.go lane (C18+C19; non-trivial = successful scans of >= 3 directory entries / >= 2 explicit files): generated directories are written to disk, imports.ScanDir and imports.ScanFiles run on them and are compared with the model's scanDir / scanFiles (lists, ErrNoGo, read error and its file); " +
+		"oracle without the model: go/parser's imports of every file the rules select (MatchFile / ShouldBuild called directly, the import \"C\" rule, name rules) must appear, nothing else may, lists strictly ascending; strconv.Unquote vs the model's unquote on all 1-2 piece literals over an escape/UTF-8 alphabet + random"
 	return res
 }
